@@ -704,7 +704,7 @@ func (p *Prop) Run(t *simhook.Tape, opt simkit.RunOpt) *simkit.RunResult {
 	res, abort := simkit.RunSolo(t, 4000000, 200000, true, body)
 	rr := &simkit.RunResult{Hash: uint64(c.hash), Nontrivial: c.nontriv, Steps: res.Steps, History: c.hist, Policy: "seq"}
 	if abort != nil && c.viol == nil {
-		c.viol = &simkit.Violation{Property: "C14", Oracle: "C14/no-progress", Op: "run", Seq: res.Steps, Message: abort.Reason}
+		c.viol = &simkit.Violation{Property: "C14", Oracle: "C14/no-progress", Op: "run", Seq: res.Steps, Message: abort.Reason + abort.Where()}
 		rr.BudgetHit = true
 	}
 	rr.Violation = c.viol
